@@ -237,7 +237,7 @@ func writeEvidence(p *Prog, r *Report, tier, evdir, replaydir string, known map[
 		"rule": "each obligation is one rule instance (rule/function/construct) decided from the SSA form of /repo's current source; " +
 			"distinct = distinct obligation keys; all are non-trivial (each names a concrete construct that was found and judged); " + r.Rule,
 		"samples":             samples,
-		"explanation":         r.Explanation,
+		"explanation":         r.Explanation + globalObligationsNote,
 		"checker_cmd":         fmt.Sprintf("/verif/bin/cctpcheck -repo %s -prop %s -tier %s", p.Root, r.Prop, tier),
 		"trusted_base":        r.Trusted,
 		"exhaustive":          true,
@@ -303,3 +303,8 @@ func failClosed(spec, tier, evdir, replaydir string, err error, start time.Time)
 		writeEvidence(p, r, tier, evdir, replaydir, nil, nil, time.Since(start).Seconds(), false)
 	}
 }
+
+// globalObligationsNote is appended to every property's explanation: the obligations that
+// commonObligations asks on every run, because each rule table's terms and paths mean what
+// they say only if these hold.
+const globalObligationsNote = " Global obligations decided on this run for this and every property (rules mutation, resolution, wiring, boundary, accessor, loader): every memory write of module code targets the writer's own fresh locals or is one of the reference tree's tabled writes (no copy/append/store into parameters, parsed fields, call results or globals; no external function or interface method handed such memory unless tabled read-only); every call resolves statically, to a tabled dependency-interface method, or to a function value bound at the call site (no recursion among new helpers, no defer but iterator.Close, no goroutine); the seven wiring functions make exactly the reference calls with the reference values and AppModule has exactly the reference methods; no capability, function value or module-typed interface value with an effectful reachable method leaves the module except to the tabled takers; the files exempt as protoc output are the 16 reference names with their header and no call into hand-written code; every keeper setter/deleter performs its write on every path."
